@@ -1,5 +1,5 @@
 From Coq Require Import String List NArith ZArith Bool.
-From DSD Require Import Base.Str Base.Errors Base.Val Model.ComplexUtils Model.DispatchCU Model.Compare.
+From DSD Require Import Base.Str Base.Errors Base.Val Base.Sort Model.ComplexUtils Model.DispatchCU Model.Compare.
 Import ListNotations.
 Local Open Scope string_scope.
 
@@ -25,7 +25,33 @@ Definition do_reaction {K} (cmp : K -> K -> comparison) (asK : val -> option K) 
   Some (VList [VList [of_list ofK cr; of_list ofK cp; VStr ct]; VStr n;
                of_list VStr (map snd sre); of_list VStr (map snd spr)]).
 
+Definition of_rkey {K} (f : K -> val) (r : rkey K) : val :=
+  let '(a, b, c) := r in VList [of_list f a; of_list f b; VStr c].
+
+(* sorted(xs), min(xs), max(xs) of objects whose order is `cmp` on `key`: the stable sort of Base/Sort.v
+   (C10_sorted_* theorems); what is returned are the descriptions of the objects in sorted order *)
+Definition sorted_val {A K} (key : A -> K) (cmp : K -> K -> comparison) (asA : val -> option A) (ofA : A -> val)
+  (xs : val) : option val :=
+  do xs <- as_listof asA xs;
+  let s := sort_by key cmp xs in
+  (* min(): the first minimal element = the head of the stable sort; max() keeps the FIRST maximal element
+     it meets (it replaces only on `>`): the first element of the stable sort that is equivalent to its last *)
+  let mx := match hd_error (rev s) with
+            | Some m => find (fun x => eqb cmp (key x) (key m)) s
+            | None => None
+            end in
+  Some (VList [of_list ofA s; of_opt ofA (hd_error s); of_opt ofA mx]).
+
 Definition dispatch_compare (op : pstr) (a : val) : option val :=
+  if op_is op "sorted_domain" then Some (or_bad (
+    sorted_val (@fst pstr Z) str_cmp (as_pair as_str as_int) (of_pair VStr VInt) a))
+  else if op_is op "sorted_complex" then Some (or_bad (sorted_val (fun k => k) ckey_cmp as_ckey of_ckey a))
+  else if op_is op "sorted_macrostate" then Some (or_bad (sorted_val (fun k => k) mkey_cmp as_mkey of_mkey a))
+  else if op_is op "sorted_reaction_c" then Some (or_bad (
+    sorted_val (fun k => k) (rkey_cmp ckey_cmp) (as_rkey as_ckey) (of_rkey of_ckey) a))
+  else if op_is op "sorted_reaction_m" then Some (or_bad (
+    sorted_val (fun k => k) (rkey_cmp mkey_cmp) (as_rkey as_mkey) (of_rkey of_mkey) a))
+  else
   if op_is op "cmp_domain" then Some (or_bad (
     match a with VList [x; y] =>
       do x <- as_pair as_str as_int x; do y <- as_pair as_str as_int y; Some (of_bools (dom_ops x y))
